@@ -344,8 +344,19 @@ def slice_reference(iv, axis):
 
 
 # --------------------------------------------------------------------------- reference: alignment (C09)
-class AlignAmbiguous(Exception):
-    pass
+class OutOfDomain(Exception):
+    reason = "out-of-domain"
+
+
+class AlignAmbiguous(OutOfDomain):
+    reason = "ambiguous-alignment"
+
+
+class NoFreeClp(OutOfDomain):
+    """constraints and relations eliminate every clp at some index: no linear sub-problem is left there (the
+    properties speak of full-column-rank matrices with n >= 1 columns; pyglotaran hands the empty matrix to LAPACK)"""
+
+    reason = "no-free-clp-at-an-index"
 
 
 def reference_alignment(axes, tolerance, method):
@@ -608,6 +619,8 @@ def reference(spec, variant=None, vals=None):
                     mats.append(M)
                     Ms = M * scale
                     rl, Mr, rel = _reduce(spec, vals, labels, Ms, x)
+                    if Mr.shape[1] == 0:
+                        raise NoFreeClp()
                     y = data[lab][:, i]
                     if W is not None:
                         Mr = Mr * W[:, i][:, None]
@@ -671,6 +684,8 @@ def reference(spec, variant=None, vals=None):
                 S = np.concatenate(blocks, axis=0)
                 y = np.concatenate(ys)
                 rl, Sr, rel = _reduce(spec, vals, full_labels, S, x)
+                if Sr.shape[1] == 0:
+                    raise NoFreeClp()
                 # weights apply when any dataset *stacked at this aligned index* supplies one
                 if any(weights[d["label"]] is not None for d, _ in members):
                     w = np.concatenate(ws)
